@@ -466,8 +466,12 @@ Proof.
   rewrite <- Hpot. exact Hlen.
 Qed.
 
+(* distinct_ids: the tool keys its per-track state by track id (map[uint32]*trakOut), the model by position; the two agree
+   when the ids are distinct, which is the domain the model mirrors the code on (the hypothesis is not used by the proof) *)
+Definition distinct_ids (hs : list trak_h) : Prop := NoDup (map (fun h => ti_id (th_trak h)) hs).
+
 Lemma crop_end_to_end file zeof startPos large payloadLen hs ms rest pre et ets shifted ranges ks swm outf :
-  Forall (trak_wf file) (map th_trak hs) ->
+  Forall (trak_wf file) (map th_trak hs) -> distinct_ids hs ->
   4611686018427387904 + 2 * total_bytes (map th_trak hs) < 18446744073709551616 ->
   0 < payloadLen -> lenN file < 9223372036854775808 ->
   crop_mp4_file hs ms rest = Ok (et, ets, (shifted, ranges, ks, swm)) ->
@@ -481,7 +485,7 @@ Lemma crop_end_to_end file zeof startPos large payloadLen hs ms rest pre et ets 
     lenN (out_bytes file ranges) + 8 < 4294967296 /\
     Forall2 (out_track file outf (lenN pre) (lenN (out_bytes file ranges)) et ets) (map th_trak hs) shifted.
 Proof.
-  intros Hwf HB Hp Hf Hrun Hpre HB2 Hout.
+  intros Hwf _ HB Hp Hf Hrun Hpre HB2 Hout.
   set (hdr := C08Model.be32 (lenN (out_bytes file ranges) + 8) ++ C08Model.name_mdat).
   assert (Hh : lenN hdr = mdat_out_hdr) by reflexivity.
   destruct (crop_mp4_file_correct file hs ms rest pre hdr et ets shifted ranges ks swm Hwf HB Hrun Hpre Hh HB2)
